@@ -62,7 +62,7 @@ func (w *World) regenerate() error {
 	type g struct{ name, dir, y, prefix, out string }
 	gs := []g{
 		{"expr", "xpath/grammars/expr", "xpath.y", "expr", "xpath.go"},
-		{"path_eval", "xpath/grammars/path_eval", "path_eval.y", "path_eval", "path_eval.go"},
+		{"path_eval", "xpath/grammars/path_eval", "path_eval.y", "pathEval", "path_eval.go"},
 		{"leafref", "xpath/grammars/leafref", "leafref.y", "leafref", "leafref.go"},
 	}
 	for _, x := range gs {
